@@ -5,6 +5,7 @@ package webhook
 // Add-only accessors for the C12 harness.
 
 import (
+	"reflect"
 	"sort"
 
 	"k8s.io/apiserver/pkg/authentication/authenticator"
@@ -16,21 +17,45 @@ func VerifCacheHosts(t authenticator.Token) []string {
 	a := t.(*multiClusterTokenReviewAuthenticator)
 	out := []string{}
 	a.caches.Range(func(k, _ interface{}) bool {
-		out = append(out, k.(string))
+		out = append(out, verifKeyHost(k))
 		return true
 	})
 	sort.Strings(out)
-	return out
+	uniq := out[:0]
+	for i, h := range out {
+		if i == 0 || h != out[i-1] {
+			uniq = append(uniq, h)
+		}
+	}
+	return uniq
+}
+
+// verifKeyHost: the host of a caches key, whether the key is the host itself
+// or a struct with a host field (the accessors must compile against both).
+func verifKeyHost(k interface{}) string {
+	if s, ok := k.(string); ok {
+		return s
+	}
+	v := reflect.ValueOf(k)
+	if v.Kind() == reflect.Struct {
+		if f := v.FieldByName("host"); f.IsValid() && f.Kind() == reflect.String {
+			return f.String()
+		}
+	}
+	return "?"
 }
 
 // VerifEvict removes one token's record from one host's cache (what the
 // cache's own garbage collection may do at any time).
 func VerifEvict(t authenticator.Token, host, token string) bool {
 	a := t.(*multiClusterTokenReviewAuthenticator)
-	c, ok := a.caches.Load(host)
-	if !ok {
-		return false
-	}
-	tokencache.VerifRemove(c.(authenticator.Token), token)
-	return true
+	found := false
+	a.caches.Range(func(k, c interface{}) bool {
+		if verifKeyHost(k) == host {
+			tokencache.VerifRemove(c.(authenticator.Token), token)
+			found = true
+		}
+		return true
+	})
+	return found
 }
